@@ -323,6 +323,8 @@ def attr_value(rng, row, name, sev_names):
         return rng.choice([0, 1, 2, 3])
     if name == "solution":
         return rng.choice(["do it", None])
+    if name in ("case_exceptions", "prefix_exceptions", "suffix_exceptions"):
+        return rng.choice([["T_WORD", "IEEE"], ["a_"], ["x", "y_"], ["_t", "_i"]])
     if row is not None:
         vals = gen_inputs.option_values(row, name)
         d = row["defaults"].get(name)
@@ -339,7 +341,10 @@ def attr_value(rng, row, name, sev_names):
 
 
 NON_CONFIGURATION = ["subphase", "solution", "bogus_attribute"]  # attributes of the object / unknown names: exercise the guards
-GLOBAL_POOL = STANDARD + ["case", "number_of_spaces", "compact_alignment", "style", "blank_line_ends_group"] + NON_CONFIGURATION
+# names that many rules hold as plain attributes WITHOUT listing them as configurable (the global level must not reach
+# them there: Rule.configure_global_rule_attributes tests `in self.configuration`)
+HELD_NOT_CONFIGURABLE = ["case_exceptions", "prefix_exceptions", "suffix_exceptions", "separate_generic_port_alignment", "generate_statement_ends_group"]
+GLOBAL_POOL = STANDARD + ["case", "number_of_spaces", "compact_alignment", "style", "blank_line_ends_group"] + HELD_NOT_CONFIGURABLE + NON_CONFIGURATION
 
 
 def rand_attrs(rng, row, pool, sev_names, kmin=1, kmax=3):
@@ -988,8 +993,20 @@ def all_effective(style, docs, fname, tmp):
         if r.deprecated:
             continue
         sev = None if r.severity is None else (r.severity.name, r.severity.type)
-        eff[r.unique_id] = (sev, {a: enc_val(getattr(r, a, None)) for a in r.configuration if a != "severity"})
+        attrs = {a: enc_val(getattr(r, a, None)) for a in r.configuration if a != "severity"}
+        # ... and what the rule acts on without listing it as configurable (exception lists of the plain case rules,
+        # `*_ends_group` switches of alignment rules, `style` of some blank-line rules): a configuration level that
+        # reaches such an attribute changes the run, so the emitted file has to reproduce it as well
+        for a, v in vars(r).items():
+            if a in r.configuration or a in _VOLATILE_RULE_STATE or a.startswith("_"):
+                continue
+            if isinstance(v, (bool, int, str, type(None))) or (isinstance(v, list) and all(isinstance(x, (str, int, bool)) for x in v)):
+                attrs["<state> " + a] = enc_val(v)
+        eff[r.unique_id] = (sev, attrs)
     return outcome, eff
+
+
+_VOLATILE_RULE_STATE = {"violations", "had_violations", "dFix", "debug", "configuration", "options", "prerequisites", "groups", "lTokens", "message", "regexp_exceptions", "severity"}
 
 
 def fix_and_report(args):
@@ -1029,6 +1046,29 @@ def oc_stack(rng, tables, style, flavour):
         st = rand_stack(rng, tables, styles=(style,), p_sev=0.0, p_filelevels=1.0, extras=False)
     st["flavour"] = flavour
     return st
+
+
+def _set_at_group_level(st, name):
+    """is `name` given below some `group:` key of the stack (rule section or a per-file rule section)?"""
+    def sections(d):
+        if isinstance(d.get("rule"), dict):
+            yield d["rule"]
+        for e in d.get("file_list", []) or []:
+            if isinstance(e, dict):
+                for v in e.values():
+                    if isinstance(v, dict) and isinstance(v.get("rule"), dict):
+                        yield v["rule"]
+        for e in d.get("file_rules", []) or []:
+            if isinstance(e, dict):
+                for v in e.values():
+                    if isinstance(v, dict) and isinstance(v.get("rule"), dict):
+                        yield v["rule"]
+    for d in st["docs"]:
+        for sec in sections(d):
+            for g in (sec.get("group") or {}).values():
+                if isinstance(g, dict) and name in g:
+                    return True
+    return False
 
 
 def has_per_file(st):
@@ -1080,6 +1120,7 @@ def check_oc_stack(drv, tables, st, tmp, files, pool, res_acc):
         top = [k for k in set(d1) | set(d2) if k != "rule" and d1.get(k) != d2.get(k)]
         res_acc["fails"].append(("__main__.generate_output_configuration", "secondEmissionDiffers", {"rules": {r: [d1["rule"][r], d2["rule"].get(r)] for r in diff}, "top-level keys": top, "style": style}, rep_in))
     # ---- effective configuration of every rule, for the analysed file
+    held_by_group = False
     oa, eff_a = all_effective(style, docs, fname, tmp)
     ob, eff_b = all_effective(None, [d1], fname, tmp)
     res_acc["evals"] += 2
@@ -1097,6 +1138,12 @@ def check_oc_stack(drv, tables, st, tmp, files, pool, res_acc):
                         det = {"rule": rid, "severity under the run": sa, "under the emitted file": sb}
                     else:
                         kind = "perFileRulesNotEmitted" if has_per_file(st) else "effectiveConfigurationNotReproduced"
+                        held = [a[len("<state> "):] for a in attrs if a.startswith("<state> ")]
+                        if held and len(held) == len(attrs) and all(_set_at_group_level(st, a) for a in held):
+                            # the GROUP level reaches every attribute in the rule's __dict__ (as coded), -oc emits only
+                            # the names in rule.configuration: a defect of the pinned tree of its own (known finding)
+                            kind = "heldAttributeSetByGroupNotEmitted"
+                            held_by_group = True
                         det = {"rule": rid, "attributes": {a: [va[a], vb.get(a)] for a in attrs[:4]}, "file": st["file"]}
                     res_acc["fails"].append(("__main__.generate_output_configuration", kind, det, rep_in))
                     break
@@ -1123,7 +1170,7 @@ def check_oc_stack(drv, tables, st, tmp, files, pool, res_acc):
             what = "violations" if a["before"] != b["before"] else ("fixed text" if a["text"] != b["text"] else "violations after fix / exit status")
             only_a = [v for v in a["before"] if v not in b["before"]][:3]
             only_b = [v for v in b["before"] if v not in a["before"]][:3]
-            kind = "perFileRulesNotEmitted" if has_per_file(st) else "runNotReproduced"
+            kind = "perFileRulesNotEmitted" if has_per_file(st) else ("heldAttributeSetByGroupNotEmitted" if held_by_group else "runNotReproduced")
             res_acc["fails"].append(("__main__.generate_output_configuration", kind, {"file": os.path.relpath(f, common.REPO), "differs": what, "only under the run": only_a, "only under the emitted file": only_b, "style": style}, dict(rep_in, file=f)))
     # ---- -rc fragment of a configured rule fed back
     ids = {r["id"]: r for r in tables["rules"]}
@@ -1144,6 +1191,9 @@ def check_oc_stack(drv, tables, st, tmp, files, pool, res_acc):
             res_acc["fails"].append(("__main__.display_rule_configuration", kind, {"rule": rid, "outcome": oc_[:3]}, dict(rep_in, rc=rid)))
         elif eff_c[rid] != eff_a2[rid]:
             kind = "userSeverityNotEmitted" if eff_c[rid][0] is None else "fragmentNotReproduced"
+            da = [a for a in eff_a2[rid][1] if eff_a2[rid][1][a] != eff_c[rid][1].get(a)]
+            if eff_c[rid][0] == eff_a2[rid][0] and da and all(a.startswith("<state> ") and _set_at_group_level(st, a[len("<state> "):]) for a in da):
+                kind = "heldAttributeSetByGroupNotEmitted"
             res_acc["fails"].append(("__main__.display_rule_configuration", kind, {"rule": rid, "under the run": eff_a2[rid][0], "under the fragment": eff_c[rid][0], "attributes": [a for a in eff_a2[rid][1] if eff_a2[rid][1][a] != eff_c[rid][1].get(a)]}, dict(rep_in, rc=rid)))
 
 
